@@ -216,6 +216,31 @@ func ruleDispatch(c *Ctx) {
 			}
 		}
 		c.check(okNest, b.Name+"/order", b.Switch.Pos(), "transactions in submission order, commands in list order, results[i][j] ↔ transactions[i].Commands[j]", detail)
+		// results[i] is allocated with one slot per command before the commands of transaction i run
+		if len(ranges) == 2 {
+			outer, inner := ranges[0], ranges[1]
+			okAlloc := false
+			for _, st := range outer.Body.List {
+				if st.Pos() >= inner.Pos() {
+					break
+				}
+				as, isAs := st.(*ast.AssignStmt)
+				if !isAs || len(as.Lhs) != 1 || len(as.Rhs) != 1 {
+					continue
+				}
+				ix, isIx := ast.Unparen(as.Lhs[0]).(*ast.IndexExpr)
+				call, isCall := ast.Unparen(as.Rhs[0]).(*ast.CallExpr)
+				if !isIx || !isCall || exprString(call.Fun) != "make" || len(call.Args) != 2 {
+					continue
+				}
+				if k, isId := outer.Key.(*ast.Ident); isId && isObj(info, ix.Index, info.Defs[k]) {
+					if lc, isLen := ast.Unparen(call.Args[1]).(*ast.CallExpr); isLen && exprString(lc.Fun) == "len" && len(lc.Args) == 1 && strings.HasSuffix(exprString(lc.Args[0]), ".Commands") {
+						okAlloc = true
+					}
+				}
+			}
+			c.check(okAlloc, b.Name+"/results-allocated", outer.Pos(), "results[i] has one slot per command of transaction i", "results[i] is not allocated with len(transaction.Commands) slots before the commands run: results[i][j] indexes a nil slice and the store goroutine panics")
+		}
 
 		// after the switch: if err != nil { return nil, err }
 		okErr := false
